@@ -684,7 +684,7 @@ inline void random(Ctx& c, long idx)
 
 inline long count(Ctx& c)
 {
-    return detCount() + (c.thorough() ? 8000000 : 20000);
+    return detCount() + (c.thorough() ? 8000000 : 200000);
 }
 inline void run(Ctx& c, long idx)
 {
